@@ -155,6 +155,14 @@ INVALID = (
     ("dup-input-field", "type Query { a(i: In): Int } input In { f: Int f: Int }"),
     ("extend-schema-dup-op", "schema { query: Query } type Query { a: Int } extend schema { query: Query }"),
     ("reserved-name", "type Query { __a: Int }"),
+    # (appended) interfaces that are not interface types; arguments of @deprecated that are not strings
+    ("implements-scalar", "scalar S type Query implements S { a: Int }"),
+    ("implements-object", "type O { a: Int } type Query implements O { a: Int }"),
+    ("implements-union-containing-it", "union U = Query type Query implements U { a: Int }"),
+    ("implements-input", "input I { a: Int } type Query implements I { a: Int }"),
+    ("deprecated-reason-int", "type Query { a: Int @deprecated(reason: 42) }"),
+    ("deprecated-reason-list-on-enum-value", "enum E { A @deprecated(reason: [1]) B } type Query { a: E }"),
+    ("extend-field-deprecated-reason-enum", "type Query { a: Int } extend type Query { b: Int @deprecated(reason: X) }"),
 )
 
 
@@ -167,7 +175,7 @@ def _sdl_invalid(i: int, ignore: bool) -> bool:
     IG = True if ignore else False
     with untraced():
         try:
-            build_schema(sdl, ignore_extensions=IG)
+            build_schema(sdl, ignore_extensions=IG).validate()        # rejected while building or by the schema validation that every use of the schema starts with
             outcome = "accepted"
         except (SDLError, SchemaError) as e:
             outcome = "rejected"
